@@ -281,7 +281,7 @@ vh::Outcome run_c17(const vh::Case& c, bool concurrent) {
                     Op17 op; op.kind = o.code % S_NK;
                     op.n1 = o.a % 4; op.n2 = (o.a / 4) % 4; op.tag = o.b % 3;
                     // predicates never match the reserved objects (ids 0,1); masks: by id, always (non-reserved), never
-                    { int sel = o.b % 5; op.mask = sel == 0 ? 0u : sel == 1 ? 0xfffffffcu : (1u << (2 + (o.a + o.b) % 12)) | (sel == 3 ? (1u << (2 + o.a % 12)) : 0u); }
+                    { int sel = o.b % 5; op.mask = sel == 0 ? 0u : sel <= 2 ? 0xfffffffcu : (1u << (2 + (o.a + o.b) % 12)) | (1u << (2 + o.a % 12)) | (sel == 4 ? (1u << (2 + (o.b / 5) % 12)) : 0u); }
                     if (op.kind == S_ADDTYPE) op.n1 = 4 + (o.a & 1);
                     if (op.kind == S_CHECKTYPE && (o.b & 4)) op.n1 = 4 + (o.a & 1);
                     if (op.kind == S_FIND && (o.b & 4)) op.n1 = 4 + (o.a & 1);
